@@ -76,6 +76,13 @@ SYNTHETIC_FAMILIES = [
     "pack:2 die:2 pu:1",
     "numa:4 core:1 pu:1",
     "pack:2 [numa] l3:2 [numa] core:1 pu:1",
+    # NUMA nodes numbered against the tree order, memory-side caches, memory at several levels
+    "pack:2 [numa(indexes=1,0)] core:2 pu:1",
+    "group:2 [numa(indexes=2,0,1,3)] pack:2 pu:1",
+    "pack:2 group:2 [numa(memorysidecachesize=256MB)] core:2 pu:1",
+    "[numa(memorysidecachesize=1GB)] pack:2 [numa(memorysidecachesize=256MB)] pu:2",
+    "node:3(indexes=2,0,1) core:1 pu:2",
+    "pack:2 die:2 [numa(indexes=3,2,1,0)] l2:1 core:1 pu:1",
 ]
 
 
